@@ -214,7 +214,19 @@ class State:
             'samples': self.samples}
 
 
+def note_inflight(spec):
+  """Remember the example that is about to run, so that the parent can name it if this shard has to be killed."""
+  path = os.environ.get('VERIF_INFLIGHT')
+  if path:
+    try:
+      with open(path, 'w') as f:
+        json.dump(jsonable(spec), f)
+    except Exception:  # pylint: disable=broad-except
+      pass
+
+
 def safe_run(prop, spec):
+  note_inflight(spec)
   try:
     arm()
     try:
@@ -247,6 +259,7 @@ def shard_main(args):
   prop_id, tier, seed_value, n, suspended = args
   import warnings
   warnings.simplefilter('ignore')
+  state = None
   try:
     import hypothesis
     from hypothesis import given, seed as hseed
@@ -282,6 +295,13 @@ def shard_main(args):
   except HarnessError as e:
     return {'error': 'HarnessError: %s' % e}
   except BaseException as e:  # includes hypothesis errors (Unsatisfiable, Flaky, ...)
+    if state is not None and state.fail is not None:
+      # a violation was observed and recorded; Hypothesis merely could not reproduce it while shrinking
+      # (behaviour that depends on earlier calls in the same process). The recorded failing spec is reported.
+      out = state.export()
+      out['error'] = None
+      out['fail'] = dict(state.fail, note='not reproducible in isolation: %s' % type(e).__name__)
+      return out
     return {'error': '%s: %s\n%s' % (type(e).__name__, e, traceback.format_exc())}
 
 
@@ -307,6 +327,113 @@ def enum_main(args):
     return {'error': 'HarnessError: %s' % e}
   except BaseException as e:
     return {'error': '%s: %s\n%s' % (type(e).__name__, e, traceback.format_exc())}
+
+
+SHARD_CPU_CAP_S = {'quick': 300.0, 'thorough': 4 * 3600.0}     # CPU seconds of one shard in one round (normal: < 150 / < 1500)
+
+
+def _child(target, arg, conn, inflight):
+  os.environ['VERIF_INFLIGHT'] = inflight
+  try:
+    # a runaway allocation in the code under test becomes a MemoryError there (reported like any other exception)
+    import resource
+    cap = int(float(os.environ.get('VERIF_SHARD_MEM_GB', '8')) * 2 ** 30)
+    resource.setrlimit(resource.RLIMIT_AS, (cap, cap))
+  except Exception:  # pylint: disable=broad-except
+    pass
+  try:
+    res = target(arg)
+  except BaseException as e:  # pylint: disable=broad-except
+    res = {'error': 'shard died: %s: %s' % (type(e).__name__, e)}
+  try:
+    conn.send(res)
+  finally:
+    conn.close()
+
+
+def _cpu_seconds(pid):
+  try:
+    with open('/proc/%d/stat' % pid) as f:
+      parts = f.read().rsplit(')', 1)[1].split()
+    return (int(parts[11]) + int(parts[12])) / float(os.sysconf('SC_CLK_TCK'))
+  except Exception:  # pylint: disable=broad-except
+    return 0.0
+
+
+def run_parallel(target, args_list, tier, tag):
+  """Runs target(arg) for every arg in its own forked process. A shard that uses more CPU time than any quiet run
+  needs by a wide margin (or 4x that in wall time, for a process stuck outside user code) is killed; the example it
+  was running is returned as {'killed': True, 'inflight': spec} - a hang is reported, the check itself never hangs."""
+  ctx = mp.get_context('fork')
+  cpu_cap = float(os.environ.get('VERIF_SHARD_CPU_S', SHARD_CPU_CAP_S[tier]))
+  wall_cap = 4 * cpu_cap
+  d = os.path.join(HERE, 'out', 'inflight')
+  os.makedirs(d, exist_ok=True)
+  procs = []
+  for i, a in enumerate(args_list):
+    r, w = ctx.Pipe(duplex=False)
+    path = os.path.join(d, '%s-%d-%d.json' % (tag, os.getpid(), i))
+    if os.path.exists(path):
+      os.unlink(path)
+    p = ctx.Process(target=_child, args=(target, a, w, path))
+    p.start()
+    w.close()
+    procs.append({'p': p, 'conn': r, 'res': None, 't0': time.time(), 'path': path})
+  pending = set(range(len(procs)))
+  while pending:
+    for i in sorted(pending):
+      pr = procs[i]
+      try:
+        if pr['conn'].poll(0):
+          pr['res'] = pr['conn'].recv()
+          pending.discard(i)
+          continue
+      except (EOFError, OSError):
+        pr['p'].join(timeout=5)
+        code = pr['p'].exitcode
+        if code is not None and code < 0:
+          # killed by a signal (out of memory, segmentation fault): report the example it was running
+          spec = None
+          try:
+            with open(pr['path']) as f:
+              spec = json.load(f)
+          except Exception:  # pylint: disable=broad-except
+            pass
+          pr['res'] = {'killed': True, 'inflight': spec, 'cpu_cap_s': -float(code), 'signal': -code}
+        else:
+          pr['res'] = {'error': 'shard %d closed its pipe without a result (exit code %s)' % (i, code)}
+        pending.discard(i)
+        continue
+      if not pr['p'].is_alive():
+        if pr['conn'].poll(0.2):
+          continue
+        pr['res'] = {'error': 'shard %d died without a result (exit code %s)' % (i, pr['p'].exitcode)}
+        pending.discard(i)
+        continue
+      if _cpu_seconds(pr['p'].pid) > cpu_cap or time.time() - pr['t0'] > wall_cap:
+        pr['p'].kill()
+        spec = None
+        try:
+          with open(pr['path']) as f:
+            spec = json.load(f)
+        except Exception:  # pylint: disable=broad-except
+          pass
+        pr['res'] = {'killed': True, 'inflight': spec, 'cpu_cap_s': cpu_cap}
+        pending.discard(i)
+    if pending:
+      time.sleep(0.25)
+  for pr in procs:
+    pr['p'].join(timeout=5)
+    try:
+      pr['conn'].close()
+    except Exception:  # pylint: disable=broad-except
+      pass
+    if os.path.exists(pr['path']):
+      try:
+        os.unlink(pr['path'])
+      except OSError:
+        pass
+  return [pr['res'] for pr in procs]
 
 
 def load_prop(prop_id):
@@ -406,9 +533,13 @@ def run_check(prop_id, tier, seed_value, replay=None):
   exhaustive = False
   # 2. finite sub-domain, if the property has one
   if hasattr(prop, 'enumerate_cases'):
-    with ctx.Pool(NSHARDS) as pool:
-      parts = pool.map(enum_main, [(prop_id, tier, i, NSHARDS, sorted(suspended)) for i in range(NSHARDS)])
+    parts = run_parallel(enum_main, [(prop_id, tier, i, NSHARDS, sorted(suspended)) for i in range(NSHARDS)], tier, prop_id + '-enum')
     for p in parts:
+      if p.get('killed'):
+        failures.append({'spec': p['inflight'], 'kinds': ['%s:no-termination' % prop_id],
+                         'details': [{'note': 'shard killed after %.0f CPU seconds; this was the example it was running' % p['cpu_cap_s']}]})
+        suspended.add('%s:no-termination' % prop_id)
+        continue
       if p.get('error'):
         errors.append(p['error'])
         continue
@@ -425,11 +556,17 @@ def run_check(prop_id, tier, seed_value, replay=None):
   if n_total > 0 and not errors:
     per = max(1, n_total // NSHARDS)
     for rnd in range(rounds):
-      with ctx.Pool(NSHARDS) as pool:
-        parts = pool.map(shard_main, [(prop_id, tier, seed_value * 1000 + 100 * rnd + i, per, sorted(suspended))
-                                      for i in range(NSHARDS)])
+      parts = run_parallel(shard_main, [(prop_id, tier, seed_value * 1000 + 100 * rnd + i, per, sorted(suspended))
+                                        for i in range(NSHARDS)], tier, prop_id)
       new_kinds = set()
+      killed = False
       for p in parts:
+        if p.get('killed'):
+          if not killed:
+            failures.append({'spec': p['inflight'], 'kinds': ['%s:no-termination' % prop_id],
+                             'details': [{'note': 'shard killed after %.0f CPU seconds; this was the example it was running' % p['cpu_cap_s']}]})
+          killed = True
+          continue
         if p.get('error'):
           errors.append(p['error'])
           continue
@@ -439,7 +576,7 @@ def run_check(prop_id, tier, seed_value, replay=None):
           if not ks <= (suspended | new_kinds):
             failures.append(p['fail'])
             new_kinds |= ks
-      if errors or not new_kinds:
+      if errors or killed or not new_kinds:
         break
       suspended |= new_kinds
 
